@@ -119,7 +119,8 @@ def convert_statement(node: TokenElement, state: ConvertState):
         if repeat.implicit and isinstance(state.text, list):
             repeat.count = len(state.clean_text)
         else:
-            repeat.count = repeat.count or 1
+            # NB: `li*0` is zero copies
+            if repeat.count is None: repeat.count = 1
 
         state.repeaters.append(repeat)
         i = 0
